@@ -11,7 +11,6 @@ use std::path::Path;
 
 use crate::errors::GeneratorOrIOError;
 use crate::generate::Generator;
-use crate::macros::{invariant, optionally_unsafe};
 use crate::params::ConstrainedFuzzyHashType;
 use crate::{GeneratorType, Tlsh};
 
@@ -43,9 +42,8 @@ fn hash_stream_common<R: Read, G: GeneratorType>(
         if len == 0 {
             break;
         }
-        optionally_unsafe! {
-            invariant!(len <= buffer.len());
-        }
+        // `len` comes from a caller-supplied `Read` implementation: it must not be
+        // handed to the optimizer as an assumption.  The slice below checks it.
         generator.update(&buffer[0..len]);
     }
     Ok(generator.finalize()?)
